@@ -326,5 +326,95 @@ def run(case, ctx):
         netgen.reset_sim_params()
 
 
+# ------------------------------------------------------------------------------------------------ line without ROADM
+
+@st.composite
+def line_case(draw):
+    """point-to-point line that starts directly at a transceiver: trx A - (fibre - amplifier) x n - trx B, both directions"""
+    lib = [{'type_variety': 'A0', 'type_def': 'variable_gain', 'gain_flatmax': 26, 'gain_min': 15, 'p_max': 23,
+            'nf_min': 6, 'nf_max': 10, 'out_voa_auto': False, 'allowed_for_design': True},
+           {'type_variety': 'A1', 'type_def': 'variable_gain', 'gain_flatmax': 16, 'gain_min': 8, 'p_max': 23,
+            'nf_min': 6.5, 'nf_max': 11, 'out_voa_auto': False, 'allowed_for_design': True},
+           {'type_variety': 'A2', 'type_def': 'fixed_gain', 'gain_flatmax': 32, 'gain_min': 26, 'p_max': 25,
+            'nf0': 5.5, 'allowed_for_design': True}]
+    si = draw(netgen.si_entry(power=draw(st.sampled_from([0, 1, -2, 3])),
+                              tx_power=draw(st.sampled_from(['none', 0, 0, -3, 2]))))
+    si['spacing'], si['baud_rate'] = 50e9, 32e9
+    si.pop('use_si_channel_count_for_design', None)
+    span = draw(netgen.span_entry(power_mode=True, eol=0, padding=draw(st.sampled_from([0, 10])), max_length=200))
+    eq = draw(netgen.equipment(edfa=lib, si=si, span=span))
+    els, conns = [], []
+    for tag, (a, b) in (('ab', ('A', 'B')), ('ba', ('B', 'A'))):
+        n = draw(st.integers(1, 4))
+        seq = [f'trx {a}']
+        for k in range(n):
+            length = draw(st.sampled_from([40.0, 60.0, 80.0, 100.0, 120.0]))
+            els.append({'uid': f'fiber {tag}.{k}', 'type': 'Fiber', 'type_variety': 'SSMF', 'metadata': netgen._meta(tag),
+                        'params': {'length': length, 'length_units': 'km', 'loss_coef': draw(st.sampled_from([0.2, 0.22])),
+                                   'con_in': 0.5, 'con_out': 0.5, 'att_in': 0}})
+            op = {'gain_target': None, 'delta_p': draw(st.sampled_from([None, None, None, 0, 1.0])), 'tilt_target': 0,
+                  'out_voa': draw(st.sampled_from([None, None, 0, 1.0]))}
+            els.append({'uid': f'amp {tag}.{k}', 'type': 'Edfa', 'type_variety': draw(st.sampled_from(['', '', 'A0'])),
+                        'operational': op, 'metadata': netgen._meta(tag)})
+            seq += [f'fiber {tag}.{k}', f'amp {tag}.{k}']
+        seq.append(f'trx {b}')
+        conns += [{'from_node': x, 'to_node': y} for x, y in zip(seq[:-1], seq[1:])]
+    els += [{'uid': 'trx A', 'type': 'Transceiver', 'metadata': netgen._meta('A')},
+            {'uid': 'trx B', 'type': 'Transceiver', 'metadata': netgen._meta('B')}]
+    return {'eq': eq, 'topo': {'elements': els, 'connections': conns}}
+
+
+def run_line(case, ctx):
+    """every amplifier of the line delivers the reference channel at reference power + its power offset (minus its VOA),
+    whatever the transmitter power: the first amplifier's gain absorbs the difference"""
+    import numpy as np
+    from gnpy.core import elements
+    from gnpy.tools.worker_utils import designed_network
+    from gnpy.topology.request import compute_constrained_path, propagate
+    eqj = case['eq']
+    si = eqj['SI'][0]
+    netgen.reset_sim_params()
+    try:
+        try:
+            equipment, network = netgen.build_network(eqj, case['topo'])
+            network, req, ref_req = designed_network(equipment, network, source='trx A', destination='trx B')
+        except Exception as e:  # noqa owned by C08
+            ctx.label('skipped:design-failed:' + type(e).__name__)
+            return
+        pref = float(si['power_dbm'])
+        tx = si.get('tx_power_dbm')
+        ctx.label('tx-power:' + ('not-given' if tx is None else 'zero' if tx == 0 else 'other'),
+                  'ref-power:' + ('zero' if pref == 0 else 'non-zero'))
+        path = compute_constrained_path(network, req)
+        if not path:
+            ctx.label('skipped:no-path')
+            return
+        with _paths.Recorder() as rec:
+            propagate(path, req, equipment)
+        judged = 0
+        for r in rec.top():
+            el = r['el']
+            if not isinstance(el, elements.Edfa):
+                continue
+            if el.effective_gain is None or el.delta_p is None:
+                ctx.violation('line:amplifier-not-designed', el.uid)
+                return
+            exp = pref + el.delta_p - (el.out_voa or 0.0)
+            sig = 10 * np.log10(r['after']['signal'] * 1e3)
+            mean_tot = 10 * np.log10(r['after']['pch'].mean() * 1e3)
+            judged += 1
+            if sig.max() > exp + 1e-6 or mean_tot < exp - 1e-6:
+                ctx.violation('line:propagated-power-differs-from-design',
+                              f'{el.uid}: designed {exp:.6f} dBm (reference {pref} + offset {el.delta_p} - VOA {el.out_voa}), '
+                              f'max signal {sig.max():.6f}, mean total {mean_tot:.6f}; transmitter power {tx}')
+                return
+        ctx.nontrivial(judged >= 1 and (tx is not None) and tx != pref)
+    finally:
+        netgen.reset_sim_params()
+
+
+
 CHECKS = [Check('design-power', design_case(), run, quick=1200, thorough=40000,
-                doc='gain/target consistency, documented rule, propagation of the design comb')]
+                doc='gain/target consistency, documented rule, propagation of the design comb'),
+          Check('line-without-roadm', line_case(), run_line, quick=300, thorough=8000,
+                doc='point-to-point line starting at a transceiver: every amplifier delivers reference power + offset')]
